@@ -27,18 +27,26 @@ ASSUMPTIONS = ['identifiers that also occur in plain-string AST fields (def/clas
 _steps = st.lists(st.tuples(st.sampled_from(['wild', 'wild', 'rename', 'rename', 'drop', 'drop']), st.integers(0, 40), st.booleans()).map(list), min_size=1, max_size=5)
 
 
+# other texts offered to CAIT on the same report between the stages (some do not parse): what was matched before must not matter
+_history = st.lists(st.sampled_from(['x = (1\n', 'def f(:\n', 'y = 2\nprint(y)\n', '', 'for i in range(3):\n    print(i)\n', 'class A:\n    pass\n']),
+                    min_size=1, max_size=3)
+
+
 def cases(tier):
     programs = st.one_of(CS1.cs1_program(max_statements=6, risk=False).map(lambda p: p['code'][len(CS1.PRELUDE):]),
                          G.syntax_program(depth=2, max_statements=5), G.corpus_strategy(stdlib=False), G.syntax_program(depth=1, max_statements=8),
                          G.syntax_program(depth=1, max_statements=1), G.expr(2).map(lambda e: e + '\n'))
-    return st.fixed_dictionaries({'code': programs, 'derivation': st.fixed_dictionaries({'frag': st.integers(0, 60), 'steps': _steps})})
+    return st.fixed_dictionaries({'code': programs, 'derivation': st.fixed_dictionaries({'frag': st.integers(0, 60), 'steps': _steps})},
+                                 optional={'history': _history})
 
 
 _flat_stmt = st.one_of(
     st.tuples(st.sampled_from('abcd'), st.sampled_from(['0', '0', '1'])).map(lambda t: '%s = %s' % t),
     st.tuples(st.sampled_from('abcd'), st.sampled_from('abcd')).map(lambda t: '%s = %s' % t),
     st.tuples(st.sampled_from('abcd'), st.sampled_from('abcd'), st.sampled_from('abcd')).map(lambda t: '%s = %s + %s' % t),
-    st.sampled_from('abcd').map(lambda v: 'print(%s)' % v))
+    st.sampled_from('abcd').map(lambda v: 'print(%s)' % v),
+    st.sampled_from(['setup', 'log', 'reset']).map(lambda f: '%s()' % f),
+    st.tuples(st.sampled_from(['setup', 'log', 'abs']), st.sampled_from('abcd')).map(lambda t: 'print(%s(%s))' % t))
 
 
 def flat_cases(tier):
@@ -47,7 +55,8 @@ def flat_cases(tier):
     programs = st.lists(_flat_stmt, min_size=4, max_size=8).map(lambda l: '\n'.join(l) + '\n')
     steps = st.lists(st.tuples(st.sampled_from(['drop', 'drop', 'rename', 'rename', 'rename', 'wild']), st.integers(0, 40), st.booleans()).map(list),
                      min_size=2, max_size=6)
-    return st.fixed_dictionaries({'code': programs, 'derivation': st.fixed_dictionaries({'frag': st.just(0), 'steps': steps})})
+    return st.fixed_dictionaries({'code': programs, 'derivation': st.fixed_dictionaries({'frag': st.just(0), 'steps': steps})},
+                                 optional={'history': _history})
 
 
 STRATEGIES = {'derived': cases, 'flat': flat_cases}
@@ -73,8 +82,16 @@ def judge(case):
         return Result([], False, ['no-derivation'], ambiguous=1)
     viol, classes = [], ['fragment=' + stages[0]['fragment_kind']]
     MAIN_REPORT.full_clear()
+    history = case.get('history') or []
+    if history:
+        classes.append('with-history')
     for k, stage in enumerate(stages):
         pattern = stage['pattern']
+        if history:
+            try:
+                find_matches('print(___)', history[k % len(history)])
+            except Exception:
+                pass
         try:
             matches = find_matches(pattern, code)
         except BaseException as e:
